@@ -156,11 +156,11 @@ let fmt_path (h : hp) (p : n edge list) : string =
   Buffer.add_string b (Printf.sprintf " len %d" (List.length p + 1));
   (* first_edge last_edge first_node (= target of the first edge, as coded) last_node path[0] to_vec_edges iter_nodes().count() *)
   let fe ((s, t), e) = fmt_edge h s t e in
-  let first = (match p with x :: _ -> Some x | [] -> None) and last = (match List.rev p with x :: _ -> Some x | [] -> None) in
   let so f o = (match o with Some x -> f x | None -> "") in
-  Buffer.add_string b (Printf.sprintf " acc %s %s %s %s %s %s %d" (so fe first) (so fe last)
-    (so (fun ((_, t), _) -> key_str h t) first) (so (fun ((_, t), _) -> key_str h t) last)
-    (so fe first) (String.concat "" (List.map fe p)) (List.length (path_nodes p)));
+  (* all from the model's PathApi definitions *)
+  Buffer.add_string b (Printf.sprintf " acc %s %s %s %s %s %s %d" (so fe (p_first_edge p)) (so fe (p_last_edge p))
+    (so (key_str h) (p_first_node p)) (so (key_str h) (p_last_node p))
+    (so fe (p_index p O)) (String.concat "" (List.map fe (p_to_vec_edges p))) (List.length (p_iter_nodes p)));
   Buffer.contents b
 
 (* ---------- containers ---------- *)
